@@ -480,9 +480,30 @@ impl<'a, 't, 'g> VGen<'a, 't, 'g> {
             }
             let mut drop_init = false;
             if self.site(FaultKind::EnumInitNotMember) {
-                let m = self.marker("novalue");
-                self.set_marker(&m);
-                value = EnumeratedValue::new(&m);
+                // a value that exists nowhere - or (same rule) a value of ANOTHER enumeration, written
+                // with or without that enumeration's name as prefix: still not a value of this one
+                let others: Vec<(String, String)> = self
+                    .enums
+                    .iter()
+                    .enumerate()
+                    .filter(|(k, _)| *k != e)
+                    .flat_map(|(_, o)| o.values.iter().filter(|v| !info.values.iter().any(|w| w.eq_ignore_ascii_case(v))).map(|v| (o.name.clone(), v.clone())).collect::<Vec<_>>())
+                    .collect();
+                if !others.is_empty() && self.t_free_flag() {
+                    let (oname, oval) = self.t_free_pick(&others).clone();
+                    self.set_marker(&oval);
+                    value = EnumeratedValue::new(&oval);
+                    if self.sites.iter().sum::<usize>() % 3 != 0 && self.g.want("ENUM_INITIAL_VALUE_WITH_TYPE_PREFIX") {
+                        value.type_name = Some(Type::from(oname.as_str()));
+                    }
+                    if let Some(p) = &mut self.planted {
+                        p.site_class = format!("{}.value-of-other-enumeration", p.site_class);
+                    }
+                } else {
+                    let m = self.marker("novalue");
+                    self.set_marker(&m);
+                    value = EnumeratedValue::new(&m);
+                }
             }
             if constant && self.site(FaultKind::ConstNoInit) {
                 drop_init = true;
